@@ -20,7 +20,7 @@ func init() {
 		Explanation: "Static decision of the structural clauses of C17 (the value-level agreement of the hostname extractor with net/url is NOT decided). For NewRequest, FillRequestForHostname and NewRequestForHostname the final value of every " +
 			"request field is extracted from SSA (gated evaluation with store forwarding) and compared with the documented derivation: both URLs capped at the 4 KiB constant before anything is derived; URLLowerCase = ToLower(URL); hostnames = extractor(capped URL); " +
 			"Domain = eTLD+1(hostname) if non-empty else the hostname (same for the source); ThirdParty <=> SourceDomain != \"\" && SourceDomain != Domain; hostname requests are first-party documents with URL http://+hostname. " +
-			"R6: the decision table of the hand-written eTLD+1 equals the algorithm of publicsuffix.EffectiveTLDPlusOne (leading/trailing dot, suffix not shorter than the name, label boundary, last label before the suffix), with no other early exit. R7: the extractor searches its delimiters in the whole URL or the suffix after the scheme. R8: its result is url[start:end] with start right after the scheme separator (or one before the first colon) and end at the first of / : ? after start, compared with the documented bounds in every case of its selections.",
+			"R6: the decision table of the hand-written eTLD+1 equals the algorithm of publicsuffix.EffectiveTLDPlusOne (leading/trailing dot, suffix not shorter than the name, label boundary, last label before the suffix), with no other early exit. R7: the extractor searches its delimiters in the whole URL or the suffix after the scheme. R8: its result is url[start:end] with start right after the scheme separator (or one before the first colon) and end at the first of / : ? after start, compared with the documented bounds in every case of its selections. A fast path that tests for an empty source host name or for equal host names is compared case by case, the stated equality substituted where it holds.",
 		Trusted:     []string{"golang.org/x/net/publicsuffix.PublicSuffix is the PSL oracle; strings.ToLower is lower-casing"},
 		Assumptions: []string{"equality of filterutil.ExtractHostname with net/url on the stated URL shapes is value-level and outside this check (DESIGN.md section 6)"},
 	})
